@@ -382,104 +382,93 @@ def asset_tables(ctx: Ctx) -> None:
 
 
 def asset_lookup(ctx: Ctx) -> None:
-    """C20.1-3,6: provenance, cache, case-insensitive comparison, specified path first."""
+    """C20.1-3,6: provenance, cache, case-insensitive comparison, specified path first (decision tables over path effects)."""
     p = ctx.p
+    from .tables import Dec, closed, closed_text, function_decs, judge as tjudge, sums_of as tsums, terminal_text, terminal_and_exit, leaves_loop_early
+    from ..decide import OneOf, key as ckey
     f = p.func(f"{AS}._asset_property")
     sn, prop = f.param_names()
-    cfg = ctx.cfg(f)
     cp = p.func(f"{AS}._cache_path")
     gci = p.func(f"{AS}._get_case_insensitive_path")
-    rets = [r for r in body_walk(f.node) if isinstance(r, ast.Return)]
-    kinds = []
-    for r in rets:
-        v = r.value
-        fs = [(ast.unparse(a), pol) for a, pol in facts(ctx, f, r)]
-        if matches("$s._cache[$k]", v):
-            ok = (f"{prop} in {sn}._cache", True) in fs
-            kinds.append("hit")
-            ctx.expect("R-ORDER", f, "a cached answer is returned as is", ok, "", str(fs), node=r)
-        elif isinstance(v, ast.Call) and callee(ctx, f, v) is cp:
-            a = v.args[1] if len(v.args) > 1 else None
-            kw = {k.arg: try_ev(ctx, f, k.value) for k in v.keywords}
-            if isinstance(a, ast.Constant) and a.value is None:
-                kinds.append("none")
-                ctx.ok("R-PROV", f, "no match -> None (cached)", "", node=r)
-            elif isinstance(a, ast.Name):
-                bs = locals_of(f).b.get(a.id, [])
-                if len(bs) == 1 and bs[0].kind == "for" and self_attr(bs[0].value, sn) == "_dirlist":
-                    kinds.append("pattern")
-                    okp = any(x.startswith(f"asset_definition.matches({a.id})") or re.fullmatch(rf"\w+\.matches\({a.id}\)", x) for x, pol in fs if pol) and not kw.get("absolute")
-                    ctx.expect("R-PROV", f, "a pattern answer is an entry of the directory listing that matches the asset's definition", okp, "", str(fs), node=r)
-                elif len(bs) == 1 and bs[0].kind == "assign" and isinstance(bs[0].value, ast.Call) and callee(ctx, f, bs[0].value) is gci:
-                    kinds.append("specified")
-                    oks = (a.id, True) in fs and kw.get("absolute") is True
-                    ctx.expect("R-PROV", f, "a specified-path answer comes from the case-insensitive listing lookup and is not None", oks, "", str(fs), node=r)
-                    arg = bs[0].value.args[0]
-                    if isinstance(arg, ast.Name) and locals_of(f).single(arg.id) is not None and locals_of(f).single(arg.id).kind == "assign":
-                        arg = locals_of(f).single(arg.id).value
-                    okj = matches("$s._path.join($s.simfile_dir, $x)", arg)
-                    sp_ = ast.unparse(arg.args[1]) if okj else ""
-                    spb = locals_of(f).b.get(sp_, [])
-                    okj = okj and len(spb) == 1 and matches("$s.simfile.get($p)", spb[0].value) and ast.unparse(spb[0].value.args[0]) == prop and (sp_, True) in fs
-                    ctx.expect("R-PROV", f, "the looked-up path is the simfile's own value for that property, joined onto the directory", okj, "", "", node=r)
-                else:
-                    ctx.bad("R-PROV", f, f"answer {src(v, 60)}", f"'{a.id}' does not derive from a directory listing: the answer could be a path that does not exist", node=r)
-            else:
-                ctx.bad("R-PROV", f, f"answer {src(v, 60)}", "the cached value is not derived from a directory listing", node=r)
-        else:
-            ctx.bad("R-ORDER", f, f"return {src(v, 60) if v is not None else 'None'}", "a return that is neither the cache hit nor goes through _cache_path: asking again may give another answer", node=r)
-    ctx.expect("R-ORDER", f, "four kinds of answer: cache hit, specified, pattern, none", sorted(kinds) == ["hit", "none", "pattern", "specified"], str(kinds), str(kinds), node=f.node)
-    # order: specified before pattern before none
-    byk = {k: cfg_node_of(cfg, f, r) for k, r in zip(kinds, rets)}
-    if {"specified", "pattern", "none"} <= set(byk):
-        lp = [l for l in for_loops(f) if self_attr(l.iter, sn) == "_dirlist"]
-        oko = len(lp) == 1 and byk["specified"] not in cfg.reachable(cfg.node_for(lp[0])) and cfg.node_for(lp[0]) in cfg.reachable(cfg.entry, removed=[byk["specified"]]) \
-            and byk["none"] not in cfg.reachable(cfg.entry, removed=[cfg.node_for(lp[0])])
-        ctx.expect("R-ORDER", f, "the specified path is tried first and falls through to the patterns when it does not exist", oko, "", "", node=f.node)
-    ad = [b for bs in locals_of(f).b.values() for b in bs if b.kind == "assign" and matches("ASSET_DEFINITIONS[$p]", b.value) and ast.unparse(b.value.slice) == prop]
-    ctx.expect("R-TABLE", f, "the patterns are those of the asked asset", len(ad) == 1, "", "", node=f.node)
-    # _cache_path: every path stores then returns the stored value
-    ccfg = ctx.cfg(cp)
+    EARLY = " [leaving the loop at this element]"
+    # ---- _asset_property
+    sums = tsums(ctx, f)
+    cis = {e.target.id for s_ in sums for e in s_.effects if e.kind == "bind" and isinstance(e.target, ast.Name) and isinstance(e.value, ast.Call)
+           and ast.unparse(e.value.func) == f"{sn}._get_case_insensitive_path"}
+    if not cis:
+        ctx.bad("R-PROV", f, "a specified-path answer comes from the case-insensitive listing lookup", "no call of _get_case_insensitive_path: the simfile's own value would be answered without checking that the file exists", node=f.node)
+        return
+    require(len(cis) == 1, f"{f.fq}: expected one local holding the case-insensitive lookup, found {sorted(cis)}")
+    ci = next(iter(cis))
+    loops = {(ast.unparse(e.target), e.line) for s_ in sums for e in s_.effects if e.kind == "for" and ast.unparse(e.value) == f"{sn}._dirlist"}
+    allloops = {e.line for s_ in sums for e in s_.effects if e.kind == "for"}
+    require(len(loops) == 1 and len(allloops) == 1, f"{f.fq}: expected one loop over {sn}._dirlist, found {sorted(loops)} of {len(allloops)} loop(s)")
+    item, line = next(iter(loops))
+    SPV = f"{sn}.simfile.get({prop})"
+    HIT, SP, CI, MATCH = f"{prop} in {sn}._cache", SPV, ci, f"ASSET_DEFINITIONS[{prop}].matches({item})"
+    lookup = f"{sn}._get_case_insensitive_path({sn}._path.join({sn}.simfile_dir, {SPV}))"
+
+    def out(s_):
+        k, v = s_.terminal()
+        v = closed(s_, v)
+        t = "return " + (ast.unparse(v) if v is not None else "None") if k == "return" else terminal_text(s_)
+        return t + (EARLY if leaves_loop_early(s_) else "")
+
+    def spec(a):
+        if a[HIT]:
+            return f"return {sn}._cache[{prop}]"
+        if a[SP] and a[CI]:
+            return f"return {sn}._cache_path({prop}, {lookup}, absolute=True)"
+        return f"return {sn}._cache_path({prop}, {item})" + EARLY if a[MATCH] else f"return {sn}._cache_path({prop}, None)"
+
+    decs = []
+    for s_ in sums:
+        asg = dict(s_.plain_assign())
+        if not any(e.kind == "for" for e in s_.effects) and not (asg.get(ckey(HIT)) or (asg.get(ckey(SP)) and asg.get(ckey(CI)))) and s_.end != "raise":
+            asg.setdefault(ckey(MATCH), False)  # an empty listing has no matching entry
+        decs.append(Dec(asg, out(s_), s_))
+    tjudge(ctx, "R-PROV", f, "four kinds of answer, in this order: the cached one; the simfile's own value when the case-insensitive listing lookup finds it; the first listing entry matching the asset's patterns; None - "
+           "every new answer goes through _cache_path", decs, [HIT, SP, CI, MATCH], spec, equiv={f"{ci} is None": (CI, False), f"{SPV} is None": (SP, False)},
+           why="an answer must be an existing entry of a directory listing (or None), and asking again must give the same answer")
+    # ---- _cache_path
     cs, ck, cv = cp.param_names()[:3]
-    stores = [n for n in body_walk(cp.node) if isinstance(n, ast.Assign) and matches("$s._cache[$k]", n.targets[0]) and ast.unparse(n.targets[0].slice) == ck]
-    rr = [r for r in body_walk(cp.node) if isinstance(r, ast.Return)]
-    okc = len(rr) == 1 and ast.unparse(rr[0].value) == f"{cs}._cache[{ck}]" and ccfg.must_pass([cfg_node_of(ccfg, cp, s_) for s_ in stores]) is None and len(stores) >= 2
-    ctx.expect("R-ORDER", cp, "every answer is stored in the cache before it is returned", okc, "", "", node=cp.node)
-    for s_ in stores:
-        v = s_.value
-        fs = [(ast.unparse(a), pol) for a, pol in facts(ctx, cp, s_)]
-        if isinstance(v, ast.Constant) and v.value is None:
-            ctx.expect("R-PROV", cp, "None is cached only for a None answer", (f"{cv} is not None", False) in fs or (f"{cv} is None", True) in fs, str(fs), "", node=s_)
-        else:
-            okv = matches("$s._path.normpath($x)", v)
-            x = ast.unparse(v.args[0]) if okv else ""
-            okv = okv and x in (cv, f"{cs}._path.join({cs}.simfile_dir, {cv})")
-            ctx.expect("R-PROV", cp, "the cached path is the normalised answer (joined onto the directory when relative)", okv, src(v), f"{src(v)}", node=s_)
-    # _get_case_insensitive_path
+    csums = tsums(ctx, cp)
+    VN, ABS = f"{cv} is None", "absolute"
+    norm_abs = f"{cs}._path.normpath({cv})"
+    norm_rel = f"{cs}._path.normpath({cs}._path.join({cs}.simfile_dir, {cv}))"
+
+    def cout(s_):
+        st = [closed_text(s_, e, keep=[cs]) for e in s_.effects if e.kind in ("store", "aug", "delete")]
+        k, v = s_.terminal()
+        v = closed(s_, v, keep=[cs])
+        return tuple(st) + ("return " + (ast.unparse(v) if (k == "return" and v is not None) else "None"),)
+
+    def cspec(a):
+        x = "None" if a[VN] else (norm_abs if a[ABS] else norm_rel)
+        return OneOf((f"{cs}._cache[{ck}] = {x}", f"return {cs}._cache[{ck}]"), (f"{cs}._cache[{ck}] = {x}", f"return {x}"))
+
+    tjudge(ctx, "R-ORDER", cp, "every answer is stored in the cache before it is returned; a path is normalised (joined onto the directory when relative), None is cached only for a None answer",
+           function_decs(csums, cout), [VN, ABS], cspec)
+    # ---- _get_case_insensitive_path
     g = gci
     gs, gp = g.param_names()
-    loc = locals_of(g)
-    sp_ = [b for bs in loc.b.values() for b in bs if b.kind.startswith("unpack") and matches("$s._path.split($p)", b.value) and ast.unparse(b.value.args[0]) == gp]
-    names = {b.index: n for n, bs in loc.b.items() for b in bs if b in sp_}
-    require(set(names) == {(0,), (1,)}, f"{g.fq}: path split not recognised")
-    d_, fn_ = names[(0,)], names[(1,)]
-    lps = [l for l in for_loops(g) if matches("$s.filesystem.listdir($d)", l.iter) and ast.unparse(l.iter.args[0]) == d_]
-    lp = one(lps, f"listing loop in {g.fq}")
-    it = lp.target.id
-    fs = [(ast.unparse(a), pol) for a, pol in facts(ctx, g, lp)]
-    ctx.expect("R-ORDER", g, "the containing directory is listed only if it is a directory", (f"{gs}.filesystem.isdir({d_})", True) in fs, str(fs), "", node=lp)
-    rr = [r for r in body_walk(g.node) if isinstance(r, ast.Return)]
-    okr = len(rr) == 1 and ast.unparse(rr[0].value) == f"{gs}._path.join({d_}, {it})" and in_body(lp, rr[0])
-    ctx.expect("R-PROV", g, "the answer is the containing directory joined with a listed entry", okr, "", f"{src(rr[0].value) if rr else ''}", node=g.node)
-    if rr:
-        fsr = [a for a, pol in facts(ctx, g, rr[0]) if pol and isinstance(a, ast.Compare)]
-        oksym = False
-        for a in fsr:
-            if isinstance(a.ops[0], ast.Eq):
-                l, r_ = inline(a.left, g), inline(a.comparators[0], g)
-                sides = sorted([ast.unparse(l), ast.unparse(r_)])
-                oksym = sides == sorted([f"{it}.lower()", f"{fn_}.lower()"])
-        ctx.expect("R-SYM", g, "the file name is compared case-insensitively on both sides", oksym, "", "one side of the comparison is not lower-cased", node=rr[0])
+    gsums = tsums(ctx, g)
+    CD, FN = f"{gs}._path.split({gp})[0]", f"{gs}._path.split({gp})[1]"
+    gl = {(ast.unparse(e.target), e.line) for s_ in gsums for e in s_.effects if e.kind == "for" and ast.unparse(e.value) == f"{gs}.filesystem.listdir({CD})"}
+    gall = {e.line for s_ in gsums for e in s_.effects if e.kind == "for"}
+    ctx.expect("R-PROV", g, "the candidates are the entries of the containing directory's listing", len(gl) == 1 and len(gall) == 1, str(sorted(gl)), f"loops: {sorted(gl)} of {len(gall)}", node=g.node)
+    if len(gl) == 1 and len(gall) == 1:
+        it, _ = next(iter(gl))
+        ISD, SAME = f"{gs}.filesystem.isdir({CD})", f"{it}.lower() == {FN}.lower()"
+        gdecs = []
+        for s_ in gsums:
+            asg = dict(s_.plain_assign())
+            if not any(e.kind == "for" for e in s_.effects) and asg.get(ckey(ISD)) is True:
+                asg.setdefault(ckey(SAME), False)  # an empty listing has no entry of that name
+            gdecs.append(Dec(asg, terminal_and_exit(s_), s_))
+        tjudge(ctx, "R-SYM", g, "the answer is the containing directory joined with the first listed entry whose lower-cased name equals the lower-cased file name; None when the directory does not exist or nothing matches",
+               gdecs, [ISD, SAME], lambda a: f"return {gs}._path.join({CD}, {it})" + EARLY if (a[ISD] and a[SAME]) else "return None",
+               equiv={f"{it}.casefold() == {FN}.casefold()": (SAME, True)}, why="both sides of the name comparison must be lower-cased, and only a real directory is listed")
     # _dirlist provenance
     init = p.func(f"{AS}.__init__")
     st = [n for n in body_walk(init.node) if isinstance(n, ast.Assign) and self_attr(n.targets[0], init.param_names()[0]) == "_dirlist"]
